@@ -2,6 +2,8 @@ import Proofs.ParseMessage
 /-! Parsing back the OPT pseudo-record. -/
 namespace Model
 
+variable {Rs : RelSpec}
+
 /-- field ranges of the OPT record (`struct.pack` widths) -/
 structure OptOk (o : EOpt) : Prop where
   ttl : o.ttl < 4294967296
@@ -54,13 +56,13 @@ theorem parseOptions_wire (opts : List (Nat × Bytes)) : ∀ (A post : Bytes) (f
       rw [hW, hend, this]
 
 /-- the OPT record written at the end of the buffer is parsed into `Message.opt` -/
-theorem parseRR_opt (cfg : PCfg) (horg : cfg.origin = none) (A post : Bytes) (t : CTable) (o : EOpt)
+theorem parseRR_opt (cfg : PCfg) (horg : cfg.origin = none) (upd : Bool) (A post : Bytes) (t : CTable) (o : EOpt)
     (q : Bytes × CTable × Nat) (count i : Nat) (st : PState) (hcur : st.cur = A.length)
-    (hs : TableSound NameEqv A t) (ho : OptOk o) (hnone : st.opt = none)
+    (hs : TableSound Rs.R A t) (ho : OptOk o) (hnone : st.opt = none)
     (h : rrsetExt A.length t none (optRRset o) = .ok q) :
-    parseRR cfg false (A ++ q.1 ++ post) ConstsC03.secADDITIONAL count i st =
+    parseRR cfg upd (A ++ q.1 ++ post) ConstsC03.secADDITIONAL count i st =
         .ok { st with cur := A.length + q.1.length, opt := some o }
-      ∧ TableSound NameEqv (A ++ q.1) (t ++ q.2.1) ∧ q.2.2 = 1 := by
+      ∧ TableSound Rs.R (A ++ q.1) (t ++ q.2.1) ∧ q.2.2 = 1 := by
   obtain ⟨qe, qn, qk⟩ := q
   have hsnd := rrsetExt_sound A t none (optRRset o) (qe, qn, qk) (optRRset_namesOk none o) hs h
   unfold rrsetExt at h
@@ -120,7 +122,7 @@ theorem parseRR_opt (cfg : PCfg) (horg : cfg.origin = none) (A post : Bytes) (t 
     simp only [c10, if_false, st1, st2, st3, st4, beVal_u16 _ hopt16, beVal_u16 _ ho.payload, beVal_u32 _ ho.ttl,
       beVal_u16 _ ho.total]
     have hroot : lowerName n' = [[]] := by
-      have : lowerName n' = lowerName [[]] := hn'
+      have : lowerName n' = lowerName [[]] := Rs.toEqv hn'
       simpa [lowerName, lowerLabel] using this
     simp only [true_or, if_true, parseSpecialHeader, hnone, Option.isSome_none, hroot, ne_eq, not_true_eq_false,
       Bool.false_eq_true, or_self, if_false]
